@@ -141,14 +141,15 @@ func (f *flight) sendRequest(t *rhp2.Transport, id types.Specifier, req rhp2.Pro
 	if f.d.dh1 == 0 && f.d.sc == 0 {
 		return t.WriteRequest(id, req)
 	}
-	reads := f.set.readCount()
 	f.gate.arm(1) // deliver the id, hold what follows
 	if err := t.WriteRequest(id, req); err != nil {
 		f.gate.release()
 		return err
 	}
-	for deadline := time.Now().Add(5 * time.Second); f.set.readCount() == reads && time.Now().Before(deadline); {
-		time.Sleep(20 * time.Microsecond)
+	// the host has consumed the id and is blocked waiting for the request body (or has ended the session):
+	// everything the handler does before reading the request has been done
+	for deadline := time.Now().Add(5 * time.Second); !f.gate.idle() && time.Now().Before(deadline); {
+		time.Sleep(10 * time.Microsecond)
 	}
 	f.hookA()
 	f.gate.release()
@@ -272,6 +273,16 @@ type halfPipe struct {
 	gated bool
 	pass  int
 	held  []byte
+	// the reader found the buffer empty and is blocked waiting for more input
+	waiting bool
+}
+
+// idle reports whether everything delivered so far has been consumed and the reader
+// is blocked waiting for more (or the pipe is closed).
+func (h *halfPipe) idle() bool {
+	h.mu.Lock()
+	defer h.mu.Unlock()
+	return h.closed || (len(h.buf) == 0 && h.waiting)
 }
 
 func (h *halfPipe) arm(pass int) {
@@ -302,6 +313,7 @@ func (h *halfPipe) read(p []byte) (int, error) {
 		if len(h.buf) > 0 {
 			n := copy(p, h.buf)
 			h.buf = h.buf[n:]
+			h.waiting = false
 			return n, nil
 		}
 		if h.closed {
@@ -310,6 +322,7 @@ func (h *halfPipe) read(p []byte) (int, error) {
 		if !h.deadline.IsZero() && !time.Now().Before(h.deadline) {
 			return 0, os.ErrDeadlineExceeded
 		}
+		h.waiting = true
 		h.cond.Wait()
 	}
 }
@@ -451,7 +464,24 @@ func doRPCForm2(tr *vhlib.Trace, f rv, rk int, h, rh uint64, s st, bs int, d dyn
 	if res == "accept" {
 		extra = rec.obs()
 	}
+	countFlight(tr, "rpcform2", d, res)
 	emit(tr, "rpcform2", fmt.Sprintf("%s rk=%d h=%d rh=%d bs=%d %s %s", f.enc("f"), rk, h, rh, bs, d.enc(), s.enc()), res, extra, err)
+}
+
+// countFlight records in the distribution how often something changed while an RPC was in flight.
+func countFlight(tr *vhlib.Trace, op string, d dyn, res string) {
+	if d.dh1 > 0 {
+		tr.Count(op + ":tip_moved_before_request")
+		if res == "accept" {
+			tr.Count(op + ":accept_after_tip_moved")
+		}
+	}
+	if d.dh2 > 0 {
+		tr.Count(op + ":tip_moved_before_signatures")
+	}
+	if d.sc != 0 {
+		tr.Count(op + ":settings_changed_in_flight")
+	}
 }
 
 // signMaybe signs h, or (bad) something else: the renter's signature then does not verify.
@@ -509,6 +539,7 @@ func doRPCRenew2(tr *vhlib.Trace, e, f rv, fv []types.Currency, rk int, h, rh ui
 	if res == "accept" {
 		extra = rec.obs()
 	}
+	countFlight(tr, "rpcrenew2", d, res)
 	emit(tr, "rpcrenew2", fmt.Sprintf("%s %s fv=%s rk=%d h=%d rh=%d bs=%d %s %s", e.enc("e"), f.enc("f"), fmtCurs(fv), rk, h, rh, bs, d.enc(), s.enc()), res, extra, err)
 }
 
@@ -590,5 +621,6 @@ func doRPCRenew3(tr *vhlib.Trace, e, k, f rv, rk int, h, rh uint64, s st, bs int
 	if res == "accept" {
 		extra = rec.obs()
 	}
+	countFlight(tr, "rpcrenew3", d, res)
 	emit(tr, "rpcrenew3", fmt.Sprintf("%s %s %s rk=%d h=%d rh=%d bs=%d %s %s", e.enc("e"), k.enc("k"), f.enc("f"), rk, h, rh, bs, d.enc(), s.enc()), res, extra, err)
 }
